@@ -92,6 +92,44 @@ func DeferredErrorsReachResult(c *Ctx, rule string, shorts ...string) int {
 								}
 							}
 						}
+						// a deferred Close of a write handle whose error is thrown away: `defer f.Close()`,
+						// `defer func() { _ = f.Close() }()`
+						discarded := func(call *ast.CallExpr) types.Object {
+							sel, ok := unparen(call.Fun).(*ast.SelectorExpr)
+							if !ok || sel.Sel.Name != "Close" || len(call.Args) != 0 {
+								return nil
+							}
+							h := objOf(info, sel.X)
+							if h != nil && openedForWriting(info, fi.Decl.Body, h) {
+								return h
+							}
+							return nil
+						}
+						if h := discarded(v.Call); h != nil {
+							has = true
+							lost, at = append(lost, h), v.Pos()
+						}
+						if lit, ok := unparen(v.Call.Fun).(*ast.FuncLit); ok {
+							for _, st := range lit.Body.List {
+								var call *ast.CallExpr
+								switch s := st.(type) {
+								case *ast.ExprStmt:
+									call, _ = s.X.(*ast.CallExpr)
+								case *ast.AssignStmt:
+									if len(s.Lhs) == 1 && len(s.Rhs) == 1 {
+										if id, isID := s.Lhs[0].(*ast.Ident); isID && id.Name == "_" {
+											call, _ = s.Rhs[0].(*ast.CallExpr)
+										}
+									}
+								}
+								if call != nil {
+									if h := discarded(call); h != nil {
+										has = true
+										lost, at = append(lost, h), v.Pos()
+									}
+								}
+							}
+						}
 						// deferred literal assigning an outer error variable
 						if lit, ok := unparen(v.Call.Fun).(*ast.FuncLit); ok {
 							ast.Inspect(lit.Body, func(y ast.Node) bool {
@@ -127,7 +165,9 @@ func DeferredErrorsReachResult(c *Ctx, rule string, shorts ...string) int {
 			}
 			n++
 			c.Analysed(fi)
-			if len(lost) > 0 {
+			if len(lost) > 0 && !types.Identical(lost[0].Type(), errT) {
+				c.Violate(rule, fi.Name()+":"+lost[0].Name(), at, "the error of the deferred Close of `"+lost[0].Name()+"`, a handle opened for writing, is discarded: where Close is the point at which the data is committed, a failed write is reported as success")
+			} else if len(lost) > 0 {
 				c.Violate(rule, fi.Name()+":"+lost[0].Name(), at, "a deferred call stores its error in `"+lost[0].Name()+"`, which is not a named result of the function: the error of the deferred Flush/Close never reaches the caller, the operation reports success")
 			} else {
 				c.Hold(rule, fi.Name(), fi.Decl.Pos(), "errors stored by deferred calls land in a named result")
